@@ -646,7 +646,7 @@ func TestC04(t *testing.T) {
 		"the seed documents (19 repository mocks, one every-field-set document per type) and of the gob encodings of every-field-set values, at the matching entry points; nesting: arrays/objects/lists/language maps/" +
 		"collections nested 1..200000 deep, chains (every type name x every item-valued term nested 28 deep, ~1800 documents), type pairs (a list of two members for every ordered pair of type names, three document forms) and gob values nested up to 18 deep, in a child process (a stack overflow is fatal) with an allocation bound; structure-aware random: seeds with a random node replaced by " +
 		"another kind, duplicated members, huge numbers, invalid UTF-8, byte flips and rewritten length bytes in gob streams; corpus: saved fuzz inputs; thorough adds a native coverage-guided fuzz campaign. " +
-		"mistyped: every member name the readers look for (id, type, @context and every vocabulary term) x 20 JSON values of every kind x 8 kinds of document x {top level, item position, list position}; value-forms (child process, run first): every entry point x every valid seed and hostile document (and what those decode to, stored with gob); the follow-up battery on what was returned, and on what a per-type decoder filled by value as well. Oracle: no panic, returns within a 10 s watchdog, allocation <= 64 MiB + 4 KiB per input byte (measured layers), and the follow-up battery (IsNil, NotEmpty, predicates, ItemsEqual(v,v), both encoders, fmt, " +
+		"mistyped: every member name the readers look for (id, type, @context and every vocabulary term) x 20 JSON values of every kind x 8 kinds of document x {top level, item position, list position}; gob-mistyped: every member of every stored seed value replaced by 15 payloads of other kinds, plus an unknown member, through the package and the per-type decoders; value-forms (child process, run first): every entry point x every valid seed and hostile document (and what those decode to, stored with gob); the follow-up battery on what was returned, and on what a per-type decoder filled by value as well. Oracle: no panic, returns within a 10 s watchdog, allocation <= 64 MiB + 4 KiB per input byte (measured layers), and the follow-up battery (IsNil, NotEmpty, predicates, ItemsEqual(v,v), both encoders, fmt, " +
 		"DerefItem) on every value returned without error. non-trivial = the input is accepted by the underlying parser (JSON parses / gob decodes) and reaches a loader; distinct by entry point + input bytes")
 	r.Assume("asymptotic cost is not decided (only a coarse absolute allocation bound and a watchdog with several orders of magnitude of margin)")
 
@@ -866,6 +866,83 @@ func TestC04(t *testing.T) {
 		}
 		r.Cells(total, n)
 		r.Exhaustive("mistyped", !r.Replaying())
+	}
+
+	// the binary form of a value is a map from member name to bytes: every member of every stored value replaced in turn by payloads of
+	// every other kind (nothing, one byte, a number, a string, an empty map, a list of strings, JSON text, the bytes of another member),
+	// plus a member nobody knows - well-formed streams whose parts are not what their names promise
+	if r.WantLayer("gob-mistyped", true) {
+		enc := func(v interface{}) []byte {
+			var b bytes.Buffer
+			_ = gob.NewEncoder(&b).Encode(v)
+			return b.Bytes()
+		}
+		payloads := [][]byte{{}, {0}, {0xff, 0xff, 0xff}, enc(int64(-5)), enc(uint(7)), enc("https://example.com/str"), enc(map[string][]byte{}), enc(map[string][]byte{"id": []byte("x"), "zz": {1}}), enc([]string{"a", "b"}),
+			enc([][]byte{{1}, {}}), enc(3.5), enc(true), []byte(`{"type":"Note"}`), []byte("https://example.com/raw")}
+		n, total := 0, 0
+		for si, seed := range gobSeeds {
+			mm := map[string][]byte{}
+			if err := gob.NewDecoder(bytes.NewReader(seed)).Decode(&mm); err != nil || len(mm) == 0 {
+				continue
+			}
+			keys := make([]string, 0, len(mm)+1)
+			for k := range mm {
+				keys = append(keys, k)
+			}
+			sort.Strings(keys)
+			keys = append(keys, "x-unknown-member")
+			for ki, k := range keys {
+				alts := append([][]byte{}, payloads...)
+				if other, ok := mm[keys[(ki+1)%len(keys)]]; ok {
+					alts = append(alts, other) // the bytes of the next member under this member's name
+				}
+				// members that are maps themselves (endpoints, source, publicKey, language maps): the same one level down
+				inner := map[string][]byte{}
+				if err := gob.NewDecoder(bytes.NewReader(mm[k])).Decode(&inner); err == nil && len(inner) > 0 {
+					ik := make([]string, 0, len(inner)+1)
+					for x := range inner {
+						ik = append(ik, x)
+					}
+					sort.Strings(ik)
+					for _, x := range append(ik, "x-unknown-member") {
+						for _, pl := range payloads[:7] {
+							i2 := map[string][]byte{}
+							for kk, vv := range inner {
+								i2[kk] = vv
+							}
+							i2[x] = pl
+							alts = append(alts, enc(i2))
+						}
+					}
+				}
+				for pi, pl := range alts {
+					m2 := map[string][]byte{}
+					for kk, vv := range mm {
+						m2[kk] = vv
+					}
+					m2[k] = pl
+					data := enc(m2)
+					for _, en := range []string{"GobDecode", fmt.Sprintf("(*%s).GobDecode", string(mm["type"]))} {
+						e, ok := entryByName[en]
+						if !ok {
+							if e, ok = entryByName[[]string{"(*Object).GobDecode", "(*Actor).GobDecode", "(*Activity).GobDecode", "(*OrderedCollectionPage).GobDecode", "(*Link).GobDecode", "(*Question).GobDecode"}[(si+ki+pi)%6]]; !ok {
+								continue
+							}
+						}
+						total++
+						cell := fmt.Sprintf("%s gob-mistyped seed#%d %s payload#%d", e.name, si, k, pi)
+						if !r.WantCell(cell) {
+							continue
+						}
+						n++
+						ds, oc := c04Call(e, data, false)
+						record("gob-mistyped", cell, e, data, ds, oc, n%2999 == 0)
+					}
+				}
+			}
+		}
+		r.Cells(total, n)
+		r.Exhaustive("gob-mistyped", !r.Replaying())
 	}
 
 	if r.WantLayer("truncation", true) {
